@@ -25,6 +25,9 @@ def run(ck: Check) -> None:
         payload = envgen.payload(rng) if i % 3 else gen.rand_json(rng, 4, [30])
         if i % 17 == 0:
             payload = (1, "a", [2.5])
+        if i % 13 == 7:
+            # a string is a payload like any other — also when its text happens to be JSON, a number, or looks like a file name
+            payload = rng.choice(["{}", "[]", '{"depends": []}', "[1, 2]", " {}", "null", "123", '"quoted"', "repodata.json", "{", "[" * 1200])
         if i % 11 == 5:
             # a payload that itself looks like an envelope (signed or not): wrapping nests it, it is not passed through
             inner = gen.envelope(envgen.payload(rng))
